@@ -1,6 +1,6 @@
 """Builds the contract registry used by every engine-A check."""
 from vf.contracts import Registry
-from . import optimisation, kernels, parser, colors, contrast
+from . import optimisation, kernels, parser, colors, contrast, conversions
 
 INLINE = [
     'cm_colors.core.colors:Color._parse', 'cm_colors.core.colors:Color.is_valid', 'cm_colors.core.colors:Color.rgb',
@@ -16,5 +16,6 @@ def build():
     optimisation.register(reg)
     colors.register(reg)
     contrast.register(reg)
+    conversions.register(reg)
     reg.mark_inline(*INLINE)
     return reg
